@@ -721,15 +721,35 @@ impl<'a, E: quiver_core::effects::Effect> Compiler<'a, E> {
                     // Keep the value on the stack for the next expression and short-circuit on nil,
                     // unless this is the final expression (its result is the module value).
                     if Some(i) != last_expr_index {
-                        end_jumps.push(self.codegen.emit_duplicate_jump_if_nil());
+                        end_jumps.push((self.codegen.emit_duplicate_jump_if_nil(), self.local_count));
                     }
                     threaded = Some(ty);
                 }
             }
         }
-        let end_addr = self.codegen.instructions.len();
-        for jump in end_jumps {
-            self.codegen.patch_jump_to_addr(jump, end_addr);
+        // As in `compile_sequence`: an early exit fills the slots of the bindings it skipped, so
+        // the locals a REPL session keeps after the line match the bindings it records.
+        let final_locals = self.local_count;
+        if end_jumps.iter().any(|&(_, locals)| locals < final_locals) {
+            let skip_pads = self.codegen.emit_jump_placeholder();
+            let mut pad_exits = Vec::new();
+            for (jump, locals) in end_jumps {
+                self.codegen.patch_jump_to_here(jump);
+                for _ in locals..final_locals {
+                    self.codegen.add_instruction(Instruction::Tuple(NIL));
+                    self.codegen.add_instruction(Instruction::Store);
+                }
+                pad_exits.push(self.codegen.emit_jump_placeholder());
+            }
+            self.codegen.patch_jump_to_here(skip_pads);
+            for jump in pad_exits {
+                self.codegen.patch_jump_to_here(jump);
+            }
+        } else {
+            let end_addr = self.codegen.instructions.len();
+            for (jump, _) in end_jumps {
+                self.codegen.patch_jump_to_addr(jump, end_addr);
+            }
         }
         Ok(result_type_id)
     }
